@@ -275,6 +275,13 @@ def check_C15(ctx):
         ("ptr", dict(k="named", name="Listener#2"), "struct", [dict(t="listener", n="priv", f=[["listen", "s65746831"], ["port", "i22"]])]),
         ("ptr", dict(k="named", name="Listener#1"), "struct", [dict(t="listener", n="", f=[["listen", "i1"]])]),
         ("ptr", dict(k="slice", elem=dict(k="named", name="Listener#2")), "slice", [dict(t="listener", n="a", f=[["listen", "s78"]]), dict(t="listener", n="b", f=[["port", "i2"]])]),
+        ("ptr", T(fld("Inner", dict(k="named", name="Inner"), emb=True), fld("Port", INT, tag="listen"), fld("Weight", INT)), "struct",
+         [dict(t="a", n="", f=[["listen", "i8080"], ["weight", "i3"], ["deep", "i1"]])]),          # an embedded struct in front of a tagged field
+        ("ptr", T(fld("Other", dict(k="named", name="Other"), emb=True), fld("A", STR, tag="x"), fld("B", STR), fld("C", STR, tag="y")), "struct",
+         [dict(t="a", n="", f=[["x", "s61"], ["y", "s63"], ["b", "s62"], ["solo", "b1"]])]),
+        ("ptr", T(fld("Name", STR), fld("Port", INT)), "struct", [dict(t="a", n="", f=[["name", "s646231"], ["port", "i5432"]])]),
+        ("ptr", T(fld("Name", STR), fld("Port", INT)), "struct", [dict(t="a", n="", f=[["n_ame", "s646231"]])]),
+        ("ptr", dict(k="slice", elem=T(fld("Name", STR))), "slice", [dict(t="a", n="", f=[["NAME", "s78"]]), dict(t="a", n="q", f=[])]),
         ("ptr", T(fld("Xy", INT)), "struct", [dict(t="a", n="", f=[["x_y", "i1"], ["xy", "i2"]])]),
         ("ptr", T(fld("Xy", INT), fld("Z", STR)), "struct", [dict(t="a", n="", f=[["x_y", "s61"], ["z", "i2"]])]),
         ("ptr", T(fld("Foo_Bar", INT)), "struct", [dict(t="a", n="", f=[["foo_bar", "i1"]])]),
